@@ -262,3 +262,56 @@ pub fn load_corpus_ast(c: &CorpusAstCase) -> Result<Option<(Vec<u8>, MapFile)>, 
     }
     Ok(Some((bytes, ast)))
 }
+
+
+/// Objects obtained from `Default::default()` are objects over the empty input: a `ProguardMapping::default()` is a
+/// mapping of zero bytes and must be indistinguishable from `ProguardMapping::new(b"")` through every accessor
+/// (records, metadata, uuid, written cache, clone, section); default iterators yield nothing.
+pub fn check_default_objects(_unit: &u8, st: &mut crate::engine::Stats) -> crate::engine::Check {
+    use crate::engine::{guarded, Fail};
+    st.evaluations += 1;
+    st.nontrivial(0xdefa);
+    st.class("objects from Default::default() against the empty input");
+    let r = guarded(|| -> crate::engine::Check {
+        let d = proguard::ProguardMapping::default();
+        let e = proguard::ProguardMapping::new(b"");
+        let describe = |m: &proguard::ProguardMapping| {
+            let s = m.summary();
+            let mut out = Vec::new();
+            let w = proguard::ProguardCache::write(m, &mut out).map_err(|e| e.to_string());
+            format!(
+                "records={} has_line_info={} is_valid={} classes={} methods={} compiler={:?} version={:?} min_api={:?} uuid={} write={:?} cache={}",
+                m.iter().take(8).count(),
+                m.has_line_info(),
+                m.is_valid(),
+                s.class_count(),
+                s.method_count(),
+                s.compiler(),
+                s.compiler_version(),
+                s.min_api(),
+                m.uuid(),
+                w,
+                crate::engine::hex(&out)
+            )
+        };
+        let want = describe(&e);
+        for (what, got) in [("ProguardMapping::default()", describe(&d)), ("ProguardMapping::default().clone()", describe(&d.clone())), ("ProguardMapping::default().section(0..0)", describe(&d.section(0..0))), ("ProguardMapping::new(b\"\").section(0..0)", describe(&e.section(0..0)))] {
+            if got != want {
+                return Err(Fail::new("default-object", format!("{what} answers {got}, ProguardMapping::new(b\"\") answers {want}")));
+            }
+        }
+        let independent = crate::model::sha1::mapping_uuid(b"");
+        if d.uuid().to_string() != independent {
+            return Err(Fail::new("default-object", format!("ProguardMapping::default().uuid() = {}, the id of the empty input is {independent}", d.uuid())));
+        }
+        let n = proguard::ProguardRecordIter::default().take(8).count();
+        if n != 0 {
+            return Err(Fail::new("default-object", format!("ProguardRecordIter::default() yields {n}+ items")));
+        }
+        Ok(())
+    });
+    match r {
+        Ok(c) => c,
+        Err(p) => Err(Fail::new("default-object", format!("a default object panicked: {p}"))),
+    }
+}
